@@ -243,6 +243,12 @@ pub struct Report {
 }
 
 impl Report {
+    /// wall-clock seconds spent per sub-check (reported in the evidence, not an oracle)
+    pub fn add_seconds(&mut self, name: &str, secs: f64) {
+        let m = self.extra.entry("seconds_per_sub_check".into()).or_insert_with(|| json!({}));
+        let old = m.get(name).and_then(|v| v.as_f64()).unwrap_or(0.0);
+        m[name] = json!(((old + secs) * 10.0).round() / 10.0);
+    }
     pub fn new() -> Self {
         Report {
             start: Instant::now(),
@@ -275,7 +281,17 @@ impl Report {
         }
         self.corpus_replayed += o.corpus_replayed;
         self.notes.extend(o.notes);
-        self.extra.extend(o.extra);
+        for (k, v) in o.extra {
+            if k == "seconds_per_sub_check" {
+                if let Some(m) = v.as_object() {
+                    for (name, secs) in m {
+                        self.add_seconds(name, secs.as_f64().unwrap_or(0.0));
+                    }
+                }
+            } else {
+                self.extra.insert(k, v);
+            }
+        }
     }
 }
 
@@ -374,6 +390,7 @@ fn record_violation(env: &Env, report: &mut Report, sub: &str, mut fail: Fail, c
 /// with a seed derived from (VERIF_SEED, sub name, worker index). The first failure stops the
 /// others; the failing worker shrinks.
 pub fn drive<S: Sub>(env: &Env, sub: &S, cases: u64, report: &mut Report) {
+    let started = Instant::now();
     let workers = sub.workers(env).max(1).min(cases.max(1) as usize);
     let share = (cases + workers as u64 - 1) / workers as u64;
     let stop = AtomicBool::new(false);
@@ -473,6 +490,7 @@ pub fn drive<S: Sub>(env: &Env, sub: &S, cases: u64, report: &mut Report) {
         }
     }
     let after_nt = report.stats.nontrivial.len() as u64 + report.stats.nontrivial_enumerated;
+    report.add_seconds(sub.name(), started.elapsed().as_secs_f64());
     let e = report.per_sub.entry(sub.name().to_string()).or_insert((0, 0));
     e.0 += evals;
     e.1 += after_nt - before_nt;
@@ -484,6 +502,7 @@ pub fn drive_enumerated<S: Sub, I>(env: &Env, sub: &S, cases: I, report: &mut Re
 where
     I: Iterator<Item = S::Case> + Send,
 {
+    let started = Instant::now();
     let workers = sub.workers(env).max(1);
     let stop = AtomicBool::new(false);
     let source = Mutex::new(cases);
@@ -546,6 +565,7 @@ where
         }
     }
     let after_nt = report.stats.nontrivial.len() as u64 + report.stats.nontrivial_enumerated;
+    report.add_seconds(sub.name(), started.elapsed().as_secs_f64());
     let e = report.per_sub.entry(sub.name().to_string()).or_insert((0, 0));
     e.0 += evals;
     e.1 += after_nt - before_nt;
@@ -613,6 +633,7 @@ pub fn replay_file(env: &Env, subs: &[&dyn DynSub], path: &Path, report: &mut Re
 
 /// The replay tier: every committed file in corpus/<ID>/*.json.
 pub fn replay_corpus(env: &Env, subs: &[&dyn DynSub], report: &mut Report) {
+    let started = Instant::now();
     let dir = env.verif_dir.join("corpus").join(env.prop);
     let mut files: Vec<PathBuf> = match std::fs::read_dir(&dir) {
         Ok(rd) => rd.filter_map(|e| e.ok()).map(|e| e.path()).filter(|p| p.extension().map(|x| x == "json").unwrap_or(false)).collect(),
@@ -646,6 +667,7 @@ pub fn replay_corpus(env: &Env, subs: &[&dyn DynSub], report: &mut Report) {
             }
         }
     }
+    report.add_seconds("corpus_replay", started.elapsed().as_secs_f64());
 }
 
 // ------------------------------------------------------------------ evidence and exit
